@@ -69,6 +69,22 @@ def gen_instance(r, gdesc):
         l = low()
         if (l[0] < minm or l[1] < minq) and not any(t[0] == m[0] and t[1] == m[1] for t in table):
             extras.append([m[0], m[1], [[l[0], l[1], r.randint(2, 15)]]])
+    # thin variants: fewer qualifying observations than min_coverage although they are a large fraction of the (shallow)
+    # qualifying depth of their site - the count threshold alone must keep them out
+    if r.random() < 0.35:
+        prof["min_coverage"] = "5"
+        taken = {t[0] for t in table if t[1] != "_"}
+        cands = [m for m in allm if m[0] not in taken]
+        for m in r.sample(cands, min(len(cands), r.randint(1, 2))):
+            c = r.randint(1, 4)
+            t = r.randint(0, c)
+            table = [e for e in table if not (e[0] == m[0] and e[1] == "_")]
+            table.append([m[0], m[1], [[60, 60, c]]])
+            if t:
+                table.append([m[0], "_", [[60, 60, t]]])
+            l = low()
+            if l[0] < minm or l[1] < minq:
+                extras.append([m[0], m[1], [[l[0], l[1], r.randint(3, 12)]]])
     return {"gene": instances.gene_short(gdesc), "structure": structure, "planted": planted, "table": table, "extras": extras,
             "profile": prof, "max_solutions": 1, "fragments": None}
 
